@@ -276,5 +276,25 @@ func RemoveAll(def Definition, repo repository.ClockedRepo) error {
 			return err
 		}
 	}
+
+	// also clean the remote-tracking refs of entities that are not (or no longer) local,
+	// for example fetched but never merged
+	remotes, err := repo.GetRemotes()
+	if err != nil {
+		return err
+	}
+	for remote := range remotes {
+		refs, err := repo.ListRefs(fmt.Sprintf("refs/remotes/%s/%s/", remote, def.Namespace))
+		if err != nil {
+			return err
+		}
+		for _, ref := range refs {
+			err = repo.RemoveRef(ref)
+			if err != nil {
+				return err
+			}
+		}
+	}
+
 	return nil
 }
